@@ -13,9 +13,42 @@ CFG = {'quick': 'gen/MC_C06_q.cfg', 'thorough': 'gen/MC_C06_t.cfg'}
 FORMATS = ['cbor', 'msgpack', 'ubjson', 'bson']          # formats whose reference decoder and image are in Trace_C06
 
 
+BIG = {'quick': 'gen/MC_BigLen_enc_q.cfg', 'thorough': 'gen/MC_BigLen_enc_t.cfg'}
+
+
 def setup():
     vf.build('c06', ['c06.cpp'])
+    vf.build('cbig', ['cbig.cpp'])
     vf.tlc_gen('gen/MC_C06', CFG['quick'], timeout=900)
+    vf.tlc_gen('gen/MC_BigLen', BIG['quick'], timeout=300)
+
+
+def big_lines(recs):
+    tr = sorted([r for r in recs if r.get('k') == 'trace'], key=lambda r: (r['f'], r['idx'], r['route']))
+    return tr, [json.dumps({k: v for k, v in r.items() if k not in ('k', 'idx', 'err', 'derr')}) for r in tr]
+
+
+def big_family(rep, tier):
+    """long lengths (2^8 / 2^15 / 2^16 boundaries): header forms validated by Trace_C06big against BinHeads"""
+    binary = vf.build('cbig', ['cbig.cpp'])
+    g = vf.tlc_gen('gen/MC_BigLen', BIG[tier], timeout=300)
+    rep.add_tlc(g[1])
+    recs = vf.run_shards(binary, g[0], args=['--mode', 'enc'])
+    def csig(r):
+        c = r.get('case') if isinstance(r.get('case'), dict) else {}
+        return {'what': 'crash', 'v': 'big %s %s %s' % (c.get('f'), c.get('shape'), c.get('n'))}
+    vf.g_triage(rep, binary, [r for r in recs if r.get('k') != 'trace'], csig, args=['--mode', 'enc'])
+    tr, lines = big_lines(recs)
+    v = vf.validate_traces('trace/Trace_C06big', 'trace/Trace_C06big.cfg', lines, max_fail=20, timeout=900)
+    rep.coverage['states'] += v['states']
+    rep.coverage['transitions'] += v['transitions']
+    for i in v['rejected']:
+        r = tr[i]
+        rep.violation({'format': r['f'], 'route': r['route'], 'value': 'big %s n=%d' % (r['shape'], r['n']), 'enc': r['enc']},
+                      {'f': r['f'], 'shape': r['shape'], 'n': r['n'], 'route': r['route']},
+                      {'head': bytes(r['head']).hex(), 'total': r['total'], 'rt': r['rt'], 'back': [r.get('back_kind'), r.get('back_size')], 'err': r.get('err'), 'derr': r.get('derr')})
+    rep.coverage['long_length_traces_validated'] = v['validated']
+    return v['validated'], len(lines)
 
 
 def collect(binary, path):
@@ -45,9 +78,10 @@ def run(tier):
         rep.violation({'format': r['f'], 'route': r['route'], 'value': json.dumps(r['v'])[:400], 'enc': r['enc']},
                       {'v': r['v'], 'f': r['f'], 'route': r['route']},
                       {'bytes': bytes(r['bytes'][:64]).hex(), 'dec_ok': r['dec_ok'], 'dec': json.dumps(r['dec'])[:400], 'err': r.get('err'), 'derr': r.get('derr')})
+    nbig, nbiglines = big_family(rep, tier)
     cov = rep.coverage
-    cov['traces_validated_against_impl'] = v['validated']
-    cov['evaluations'] = len(lines)
+    cov['traces_validated_against_impl'] = v['validated'] + nbig
+    cov['evaluations'] = len(lines) + nbiglines
     cov['distinct_nontrivial'] = totals.get('cases', 0) // max(1, len(FORMATS)) if totals.get('cases') else g[1]['cases']
     cov['exhaustive'] = True
     cov['formats'] = FORMATS
@@ -55,7 +89,10 @@ def run(tier):
                    'patterns (zeros, half/float/double exactness boundaries, subnormals, max, inf, NaN), text and byte strings at length boundaries '
                    '0,1,23,24,31,32,255,256 (+15,16,257 thorough) and non-ASCII content, arrays/maps at count boundaries, nesting, and the CBOR '
                    'string-reference family (tables crossing 24 entries, mixed byte/text strings, repeated occurrences); x routes per format '
-                   '(DOM encode, streaming encoder, pack_strings); one trace line per (value, format, route)')
+                   '(DOM encode, streaming encoder, pack_strings); one trace line per (value, format, route); long-length family (spec/BinHeads.tla): '
+                   'text string / byte string / array / map / member name of length n in {255, 256, 32767, 32768, 65535, 65536} (thorough + 127, 128, '
+                   '70000) x 4 formats x routes incl. undeclared-length streaming: the header and total size of the output must be one of the forms '
+                   'the format allows for that length, and the library must read it back')
     cov['bounds'] = open(os.path.join(vf.SPEC, CFG[tier])).read().split('CONSTANTS')[1].split()
     cov['samples'] = [json.loads(x) for x in lines[:2]]
     rep.assumptions += ['only formats listed in coverage.formats are validated in this run (the others join as their reference decoders are added to Trace_C06)']
@@ -64,6 +101,19 @@ def run(tier):
 
 def replay(path):
     d = json.load(open(path))
+    if 'shape' in d['case']:
+        binary = vf.build('cbig', ['cbig.cpp'])
+        c = d['case']
+        recs = vf.run_one(binary, {'f': c['f'], 'shape': c['shape'], 'n': c['n']}, args=['--mode', 'enc'])
+        tr, lines = big_lines([r for r in recs if r.get('k') == 'trace' and r.get('route') == c.get('route', r.get('route'))])
+        v = vf.validate_traces('trace/Trace_C06big', 'trace/Trace_C06big.cfg', lines)
+        for r in tr:
+            print(r['f'], r['route'], r['shape'], r['n'], 'enc=%s' % r['enc'], 'head=' + bytes(r['head']).hex(), 'total=%d' % r['total'], 'read back: %s %s eq=%s' % (r.get('back_kind'), r.get('back_size'), r['rt']))
+        if v['rejected'] or not tr:
+            print('VIOLATION property=%s replay=%s' % (PROP, path))
+            return 1
+        print('accepted by the trace spec on this tree')
+        return 0
     binary = vf.build('c06', ['c06.cpp'])
     recs = vf.run_one(binary, {'v': d['case']['v']}, args=['--format', d['case'].get('f', 'cbor')])
     tr = [r for r in recs if r.get('k') == 'trace' and r.get('route') == d['case'].get('route', r.get('route'))]
